@@ -62,6 +62,11 @@
                                DESCR" reads back with the empty name (the optional leading
                                period of the name pattern is given back after the dot-free
                                star finds no closing period; Proofs/BlankMnemonicProofs.v);
+       C03_written_sections_read_back / C03_other_text_unchanged
+                               the four sections as write emits them (steps 1-9 of write:
+                               WRAP/VERS items, STRT/STOP/STEP refresh, unit alignment,
+                               standardize_value) read back as the expected items of the
+                               in-memory file after the call; ~Other is written unchanged;
      6 C03_standardize_idem / C03_standardize_cases   standardize_value is idempotent and
                                changes only None (-> "" without unit) and empty/None values of
                                items with a unit (-> 0): the documented permitted difference.
@@ -70,9 +75,11 @@
      * blank mnemonics on lines that DO contain a further period (".M  1.5 : d" parses with
        name "M  1"): excluded by the property text; mnemonics made of blanks only (they read
        back as the empty mnemonic);
-     * the whole-file statement (write then read, including STRT/STOP/STEP refresh, unit
-       alignment and ~Other): the section-level theorem is about section_lines/parse_body;
-       the composition with find_sections and the data section is tied by correspondence;
+     * the composition with the file-level reader: cutting the text at the title lines
+       (find_sections, C05), the reader's own version detection from the VERS item it reads,
+       re-reading ~Other, and the data section are not composed here — the theorems are about
+       the lines of each section as parse_body receives them (the reader's version is taken
+       equal to the version written); tied by the correspondence runs;
      * units made of digits only, bracketed units, lines on which the ~Curves ".."
        special case triggers: excluded by the property text.
 
@@ -82,8 +89,9 @@
    val_equiv numeq (num (vstr fstr v)) v.  Case mapping is ASCII (upper/lower of PyStr). *)
 From Coq Require Import List NArith ZArith Bool String.
 Import ListNotations.
-Require Import PyStr Regex NumLit Num NumSpec HeaderLine Tables SectionParse Read Writer.
-Require Import HeaderLineSpec BlankMnemonicProofs ItemsBindProofs OrderTableProofs WriteHeaderProofs.
+Require Import PyStr Regex NumLit Num NumSpec HeaderLine Tables SectionParse DataRead Read Writer.
+Require Import HeaderLineSpec BlankMnemonicProofs ItemsBindProofs OrderTableProofs WriteHeaderProofs
+  WriteOptionsProofs WriteReadProofs.
 Open Scope string_scope. Open Scope list_scope. Open Scope N_scope.
 
 (* 1. the widths of a section cover every one of its items *)
@@ -114,9 +122,7 @@ Proof. exact format_is_layout. Qed.
 Theorem C03_padding : forall fstr o lw mw it,
   blanks (pad1 lw it) = true /\ blanks (pad2 fstr o mw it) = true /\
   (covers fstr o lw mw it -> (1 <= List.length (pad2 fstr o mw it))%nat).
-Proof.
-  intros. split; [apply blanks_pad1|]. split; [apply blanks_pad2|]. apply pad2_length.
-Qed.
+Proof. exact padding_facts. Qed.
 
 (* 3. one line *)
 Theorem C03_line_roundtrip : forall fstr k o lw mw it,
@@ -155,7 +161,7 @@ Theorem C03_expected_item_fields : forall fstr k c it,
   i_unit (expected_item fstr k c it) = strip_brackets (i_unit it) /\
   i_value (expected_item fstr k c it) = read_value k (i_orig it) (vstr fstr (i_value it)) /\
   i_descr (expected_item fstr k c it) = i_descr it.
-Proof. intros. repeat split. Qed.
+Proof. exact expected_item_fields. Qed.
 
 Theorem C03_unit_unbracketed : forall u,
   conf_unit u = true -> not_bracketed u = true -> strip_brackets u = u.
@@ -210,11 +216,7 @@ Theorem C03_blank_mnemonic_line : forall fstr k o lw mw it,
                  (pad4 (tail_text fstr o it)) (tail_text fstr o it) [] /\
   read_header_line (strip (format_item fstr o lw mw it)) (is_curves_of k) (is_param_of k)
   = Some (mkhl [] (i_unit it) (rhs_text fstr o it) (tail_text fstr o it)).
-Proof.
-  intros fstr k o lw mw it Hc Hv. split.
-  - exact (strip_format_blank fstr k o lw mw it Hc).
-  - exact (blank_stripped_line_roundtrip fstr k o lw mw it Hc Hv).
-Qed.
+Proof. exact blank_mnemonic_line. Qed.
 
 (* the general grammar fact behind it (C04 style): a line that starts with its only period *)
 Theorem C03_blank_name_parse : forall (u p2 v p3 p4 d p5 : list N) (ic ip : bool),
@@ -238,6 +240,44 @@ Theorem C03_section_roundtrip_blanks : forall fstr v k c ie cc tr items, is_std 
     parse_body v k c ie cc tr lines [] = POk items' /\
     map meta items' = map (fun it => meta (expected_item fstr k c it)) items.
 Proof. exact section_roundtrip_blanks. Qed.
+
+(* 5c. the header part of write, section by section: the item lines write emits (write_sections
+   is steps 1-9 of write, see C12_write_factors) are read by parse_body as the expected items
+   of the sections of the in-memory file AFTER the call — i.e. after STRT/STOP/STEP refresh,
+   unit alignment and standardize_value, the documented differences — for ~Version of the
+   copy in which VERS was substituted; the ~Other text written is the unchanged text *)
+Theorem C03_written_sections_read_back :
+  forall fmtv fmt_diff fstr fzero numeq ver wrapo m hs c ie cc tr,
+  write_sections fmtv fmt_diff fstr fzero numeq ver wrapo m = Some hs ->
+  section_ok fstr (hs_version hs) KVersion cc (hs_vers_items hs) ->
+  section_ok fstr (hs_version hs) KWell cc (s_items (l_well (hs_las hs))) ->
+  section_ok fstr (hs_version hs) KCurves cc (s_items (l_curves (hs_las hs))) ->
+  section_ok fstr (hs_version hs) KParameter cc (s_items (l_params (hs_las hs))) ->
+  reads_back fstr (hs_version hs) KVersion c ie cc tr (hs_lv hs) (hs_vers_items hs) /\
+  reads_back fstr (hs_version hs) KWell c ie cc tr (hs_lw hs) (s_items (l_well (hs_las hs))) /\
+  reads_back fstr (hs_version hs) KCurves c ie cc tr (hs_lc hs) (s_items (l_curves (hs_las hs))) /\
+  reads_back fstr (hs_version hs) KParameter c ie cc tr (hs_lp hs) (s_items (l_params (hs_las hs))).
+Proof. exact written_sections_read_back. Qed.
+
+Theorem C03_section_ok_unfold : forall fstr v k cc items,
+  section_ok fstr v k cc items <->
+  (forall it, In it items ->
+    (conf_item fstr k (sec_ord v (sect_table_name k) it) (sec_lw items)
+               (sec_mw fstr (sec_ord v (sect_table_name k)) items) it = true /\
+     starts_ok cc it = true)
+    \/ (conf_blank fstr k (sec_ord v (sect_table_name k) it) it = true /\ in_str 46 cc = false)).
+Proof. exact section_ok_unfold. Qed.
+
+Theorem C03_reads_back_unfold : forall fstr v k c ie cc tr lines items,
+  reads_back fstr v k c ie cc tr lines items <->
+  exists items', parse_body v k c ie cc tr lines [] = POk items' /\
+                 map meta items' = map (fun it => meta (expected_item fstr k c it)) items.
+Proof. exact reads_back_unfold. Qed.
+
+Theorem C03_other_text_unchanged : forall fmtv fmt_diff fstr fzero numeq ver wrapo m hs,
+  write_sections fmtv fmt_diff fstr fzero numeq ver wrapo m = Some hs ->
+  l_other (hs_las hs) = l_other (m_las m).
+Proof. exact write_sections_other. Qed.
 
 (* 6. standardize_value *)
 Theorem C03_standardize_idem : forall fzero val u,
@@ -352,6 +392,32 @@ Example C03_ex_blank_read :
   end = map meta ex_blank.
 Proof. vm_compute. split; reflexivity. Qed.
 
+(* a whole in-memory file through the header part of write (2.0 file written as 1.2) *)
+Definition ex_m : mlas :=
+  mkmlas (mklas (mksect [new_item (s2l "VERS") [] (VFloat (s2l "2.0")) (s2l "v"); new_item (s2l "WRAP") [] (VStr (s2l "NO")) []] false)
+                (mksect [new_item (s2l "STRT") (s2l "M") (VFloat (s2l "1.0")) []; new_item (s2l "STOP") (s2l "M") (VFloat (s2l "2.0")) [];
+                         new_item (s2l "STEP") (s2l "M") (VFloat (s2l "1.0")) []; new_item (s2l "NULL") [] (VFloat (s2l "-999.25")) [];
+                         new_item (s2l "BHT") (s2l "DEGC") (VStr []) (s2l "empty value with unit") ] false)
+                (mksect [new_item (s2l "DEPT") (s2l "M") (VStr []) []; new_item (s2l "GR") [] (VStr []) []] false)
+                (mksect ex_params false) (s2l "free text") [] [[CNum (s2l "1.0"); CNum (s2l "2.0")]; [CNum (s2l "5"); CNaN]] true)
+         None.
+Example C03_ex_written_hyps :
+  match write_sections (fun f t => t) (fun a b => a) ex_fstr (fun _ => false) (fun a b => str_eqb a b)
+                       (Some W12) None ex_m with
+  | Some hs =>
+      section_okb ex_fstr (hs_version hs) KVersion (s2l "#") (hs_vers_items hs) &&
+      section_okb ex_fstr (hs_version hs) KWell (s2l "#") (s_items (l_well (hs_las hs))) &&
+      section_okb ex_fstr (hs_version hs) KCurves (s2l "#") (s_items (l_curves (hs_las hs))) &&
+      section_okb ex_fstr (hs_version hs) KParameter (s2l "#") (s_items (l_params (hs_las hs))) &&
+      (* the documented difference is visible: the empty BHT value became 0 *)
+      match nth_error (s_items (l_well (hs_las hs))) 4 with Some it => match i_value it with VInt 0 => true | _ => false end | None => false end
+  | None => false
+  end = true.
+Proof. vm_compute. reflexivity. Qed.
+Theorem C03_section_okb_ok : forall fstr v k cc items,
+  section_okb fstr v k cc items = true -> section_ok fstr v k cc items.
+Proof. exact section_okb_ok. Qed.
+
 Example C03_ex_standardize :
   standardize (fun _ => false) (VStr []) (s2l "M") = VInt 0 /\
   standardize (fun _ => false) VNone [] = VStr [] /\
@@ -379,5 +445,10 @@ Print Assumptions C03_section_roundtrip.
 Print Assumptions C03_blank_mnemonic_line.
 Print Assumptions C03_blank_name_parse.
 Print Assumptions C03_section_roundtrip_blanks.
+Print Assumptions C03_written_sections_read_back.
+Print Assumptions C03_section_ok_unfold.
+Print Assumptions C03_reads_back_unfold.
+Print Assumptions C03_section_okb_ok.
+Print Assumptions C03_other_text_unchanged.
 Print Assumptions C03_standardize_idem.
 Print Assumptions C03_standardize_cases.
